@@ -182,7 +182,12 @@ var tsCounter = time.Date(2026, 1, 1, 0, 0, 0, 0, time.UTC).UnixNano()
 func nextTs() int64 { tsCounter += 1000; return tsCounter }
 
 func (n *node) execBlock(txs []pb.Transaction, local []bool) {
-	h := n.exec.VerifHeight() + 1
+	n.execBlockAt(n.exec.VerifHeight()+1, txs, local)
+}
+
+// execBlockAt hands the executor a block with an explicit height; a height at or below the current one makes the executor roll
+// the ledger back first (rollbackBlocks) and execute the new block in place of the old one
+func (n *node) execBlockAt(h uint64, txs []pb.Transaction, local []bool) {
 	block := &pb.Block{
 		BlockHeader:  &pb.BlockHeader{Version: []byte("1.0.0"), Number: h, Timestamp: nextTs()},
 		Transactions: &pb.Transactions{Transactions: txs},
